@@ -29,7 +29,7 @@ theorem trace_off_empty (w : World (σ × List (TraceLabel × S))) :
   simp only [Bool.false_eq_true, if_false]
   apply solveT_inv (traced I snap false) o t (fun u => u.2 = w.user.2) _ n w rfl
   constructor
-  · intro u off h; exact h
+  · intro _ u h; exact h
   · intro u h
     simp only [traced]
     rcases hb : I.before o u.1 t with ⟨u', b⟩
